@@ -752,7 +752,11 @@ func (e *Env) call(x *SExpr) Val {
 						}
 						var args []Val
 						for k := range x.Args {
-							args = append(args, argv(k))
+							a := argv(k)
+							if _, ok := flatten(a); !ok || a.K == KBad || a.T == nil {
+								return e.fail("argument %d of %s is not usable here (%s)", k, name, a.Why)
+							}
+							args = append(args, a)
 						}
 						return vc.pureMethodCall(e.st, recv, key, it.Method(i), args)
 					}
